@@ -168,6 +168,19 @@ def main():
     done_targets |= set(more)
     closure_units += new_units
     results += engine.run_units(new_units, tier, ns.jobs)
+  # ---- sidecar guard: every loop invariant / ghost written for this property must have bound to a loop of the current tree ----------
+  from contracts import loops as _loops
+  SIDE_PROP = {'contracts.c11_itml': 'C11', 'contracts.c14_mmc': 'C14', 'contracts.c15_scml': 'C15'}
+  used_side = {tuple(k) if not isinstance(k, tuple) else k for u in results for k in (u.get('report') or {}).get('sidecars_used', [])}
+  used_side = {(k[0], tuple(k[1]) if isinstance(k[1], list) else k[1]) for k in used_side}
+  for (starget, sord), sent in sorted(_loops.INVARIANTS.items(), key=str):
+    owner = SIDE_PROP.get(sent.get('module'))
+    if owner is None and sent.get('module') == 'contracts.fits':
+      owner = 'C09' if starget.startswith('lfda:') else 'C10' if starget.startswith('lmnn:') else None
+    if owner == prop and (starget, sord) not in used_side:
+      undecided.append(('%s/sidecar-invariant[%s]' % (starget, sent.get('over')),
+                        'the loop invariant written for loop `%s` of %s did not bind to any loop of the current tree (function renamed, loop removed or '
+                        'its iteration expression changed): the value-level clauses that rest on it are not decided' % (sent.get('over'), starget)))
   clauses = engine.aggregate(results)
   solver_seconds = sum(o['seconds'] for u in results for o in u['obligations'])
   n_obl = sum(len(u['obligations']) for u in results)
@@ -213,6 +226,12 @@ def main():
     elif rep:
       payload['replay_note'] = rep
 
+    if payload['failing_input'] is None and any((f.get('info') or {}).get('pattern_mismatch') for f in c['fails']):
+      # the clause recognises the term / the callee of a documented formula; an unrecognised spelling is not a refutation
+      # (whatever the solver says about the literal `False` it was given): undecided unless a failing input exists
+      undecided.append((cid, 'the term built from the body is not one of the recognised forms of the documented formula (%s) and no failing input was found'
+                        % next((f['info']['pattern_mismatch'] for f in c['fails'] if (f.get('info') or {}).get('pattern_mismatch')), '')))
+      continue
     if c['status'] == 'unknown' and payload['failing_input'] is None:
       if cid in baseline:
         # an obligation that is discharged on the unchanged tree and no longer is: reported as the violation, with the
